@@ -1,6 +1,7 @@
 (* Proofs/StrAnyMapRefuted.v - concrete witnesses: what the pinned commit
-   ([fx = false]) did before the three "fix:" commits, and where the current
-   code ([fx = true]) still departs from the specification (nil holders). *)
+   ([fx = false]) did before the "fix:" commits, and where the current
+   code ([fx = true]) still departs from the specification (Set reaching a nil
+   map held by value or a nil pointer). *)
 From Coq Require Import ZArith NArith List String Ascii Bool Lia.
 From Verif Require Import Util Ints StrAnyMap StrAnyMapSpec StrAnyMapAbs StrAnyMapNav StrAnyMapSet StrAnyMapCopy.
 Import ListNotations.
@@ -33,14 +34,17 @@ Lemma pinned_reset_by_value :
   reset false w_flat = (w_flat, Ok tt) /\ abs w_flat <> treset (abs w_flat).
 Proof. split; [vm_compute; reflexivity|vm_compute; discriminate]. Qed.
 
-(* ---------- current code: nil holders ---------- *)
-(* Set whose path reaches a nil map (here: a *map pointing at a nil map) stores nothing and reports nothing *)
+(* ---------- pinned commit: nil maps behind a pointer ---------- *)
+(* Set whose path reaches a *map pointing at a nil map stored nothing and reported nothing *)
 Definition w_nilmap : any := AMap OCaller FVal [("a", ANilMap NPtrMap)].
-Lemma set_through_nil_holder_is_silent_noop :
-  set true ["a"; "b"] w_nilmap (AInt KInt 1) = (w_nilmap, Ok tt) /\
+Lemma pinned_set_through_nil_map_pointer_is_silent_noop :
+  set false ["a"; "b"] w_nilmap (AInt KInt 1) = (w_nilmap, Ok tt) /\
   tset (abs w_nilmap) ["a"; "b"] (stored (abs (AInt KInt 1))) =
     SetOk (TMap HVal [("a", TMap HPtr [("b", TLeaf (LInt KInt 1))])]) /\
-  abs w_nilmap <> TMap HVal [("a", TMap HPtr [("b", TLeaf (LInt KInt 1))])].
+  abs w_nilmap <> TMap HVal [("a", TMap HPtr [("b", TLeaf (LInt KInt 1))])] /\
+  (* the fixed code makes the map and stores it through the pointer *)
+  set true ["a"; "b"] w_nilmap (AInt KInt 1) =
+    (AMap OCaller FVal [("a", AMap OMake FPtr [("b", AInt KInt 1)])], Ok tt).
 Proof. repeat split; try (vm_compute; reflexivity). vm_compute. discriminate. Qed.
 
 Lemma copy_of_fixes_entries src h es :
@@ -49,24 +53,40 @@ Proof.
   intros [h' H]. unfold same_tree in H. rewrite !strip_map in H. now inversion H.
 Qed.
 
-(* CopyTo into a pointer to a nil map copies nothing and reports nothing *)
-Lemma copyto_nil_dst_copies_nothing :
-  copy_to true w_flat (ANilMap NPtrMap) = (ANilMap NPtrMap, Ok tt) /\
-  ~ copy_of (abs w_flat) (abs (ANilMap NPtrMap)).
+(* CopyTo into a pointer to a nil map copied nothing and reported nothing *)
+Lemma pinned_copyto_nil_dst_copies_nothing :
+  copy_to false w_flat (ANilMap NPtrMap) = (ANilMap NPtrMap, Ok tt) /\
+  ~ copy_of (abs w_flat) (abs (ANilMap NPtrMap)) /\
+  copy_to true w_flat (ANilMap NPtrMap) = (AMap OMake FPtr [("k", AInt KInt 1)], Ok tt).
 Proof.
-  split; [vm_compute; reflexivity|].
+  split; [vm_compute; reflexivity|]. split; [|vm_compute; reflexivity].
   intros H. apply copy_of_fixes_entries in H. vm_compute in H. discriminate.
 Qed.
 
-(* CopyTo from a nil map leaves the destination's old entries in place *)
+(* CopyTo from a nil map left the destination's old entries in place *)
 Definition w_dst : any := AMap OOther FPtr [("old", AInt KInt 9)].
-Lemma copyto_nil_src_keeps_old_entries :
-  copy_to true (ANilMap NMap) w_dst = (w_dst, Ok tt) /\
-  ~ copy_of (abs (ANilMap NMap)) (abs w_dst).
+Lemma pinned_copyto_nil_src_keeps_old_entries :
+  copy_to false (ANilMap NMap) w_dst = (w_dst, Ok tt) /\
+  ~ copy_of (abs (ANilMap NMap)) (abs w_dst) /\
+  copy_to true (ANilMap NMap) w_dst = (AMap OOther FPtr [], Ok tt).
 Proof.
-  split; [vm_compute; reflexivity|].
+  split; [vm_compute; reflexivity|]. split; [|vm_compute; reflexivity].
   intros H. apply copy_of_fixes_entries in H. vm_compute in H. discriminate.
 Qed.
+
+(* ---------- current code: nil holders there is no pointer to store through ---------- *)
+(* Set whose path reaches a nil map held by value (or a nil pointer) stores nothing and reports nothing *)
+Definition w_nilval : any := AMap OCaller FVal [("a", ANilMap NMap)].
+Definition w_nilptr2 : any := AMap OCaller FVal [("a", ANilMap NPtr2Ptr)].
+Lemma set_through_nil_holder_is_silent_noop :
+  set true ["a"; "b"] w_nilval (AInt KInt 1) = (w_nilval, Ok tt) /\
+  tset (abs w_nilval) ["a"; "b"] (stored (abs (AInt KInt 1))) =
+    SetOk (TMap HVal [("a", TMap HVal [("b", TLeaf (LInt KInt 1))])]) /\
+  abs w_nilval <> TMap HVal [("a", TMap HVal [("b", TLeaf (LInt KInt 1))])] /\
+  set true ["a"; "b"] w_nilptr (AInt KInt 1) = (w_nilptr, Ok tt) /\
+  set true ["a"; "b"] w_nilptr2 (AInt KInt 1) = (w_nilptr2, Ok tt) /\
+  set true ["b"] (ANilMap NMap) (AInt KInt 1) = (ANilMap NMap, Ok tt).
+Proof. repeat split; try (vm_compute; reflexivity). vm_compute. discriminate. Qed.
 
 (* ---------- no method looks at an origin ---------- *)
 Lemma to_caller_map o f es : to_caller (AMap o f es) = AMap OCaller f (map (fun kv => (fst kv, to_caller (snd kv))) es).
